@@ -51,7 +51,7 @@ func LawShapes(thorough bool) []*Shape {
 		out = append(out, Mixed(a)...)
 	}
 	out = append(out, UserDefined()...)
-	out = append(out, Collide()...)
+	out = append(out, Collide(thorough)...)
 	out = append(out, Names(AnnVJL)...)
 	out = append(out, Grouped(AnnVJL)...)
 	if thorough {
@@ -136,6 +136,10 @@ func Pack(mode Mode, shapes []*Shape, size int) []*Package {
 	var out []*Package
 	for _, fam := range fams {
 		ss := byFam[fam]
+		size := size
+		if strings.HasPrefix(fam, "collide") {
+			size = 1 // the verdict of these shapes depends on what else is in the package
+		}
 		for i, k := 0, 0; i < len(ss); i, k = i+size, k+1 {
 			j := i + size
 			if j > len(ss) {
